@@ -27,7 +27,7 @@ REAL = ["Output", "Input", "AvgOverTime", "SumOverTime", "Scale"]
 STUB = ["event driver standing in for producer and consumers"]
 ASSUMPTIONS = ["request times strictly increasing per consumer (zero-length intervals are refused by design)",
                "float tolerance 1e-9 relative"]
-GAPS = [1, 2, 3, 4, 6, 7]
+GAPS = [1, 2, 3, 4, 6, 7, 2, 3, 31, 50]    # hours; some gaps are longer than a day
 FR = [Fraction(1, 2), Fraction(1, 4), Fraction(3, 4), Fraction(1, 3)]
 
 
